@@ -126,6 +126,31 @@ def con_out_differential(ctx, e):
                       'another result')
 
 
+def raman_single_pump_differential(ctx, e):
+    """Every pump of a Raman span taken alone: re-run the crossing from the recorded input with that pump only.
+    The noise of one pump is then not hidden behind the noise of the others: no channel may improve."""
+    el = e['el']
+    if e['after'] is None or len(getattr(el, 'raman_pumps', ())) == 0:
+        return
+    for pump in el.raman_pumps:
+        el1 = deepcopy(el)
+        el1.raman_pumps = (pump,)
+        out = attach.Snap(el1(si_from_snap(e['before'])))
+        ctx.count('raman_single_pump_runs')
+        b = e['before']
+        idx = {f: i for i, f in enumerate(b.frequency.tolist())}
+        sel = np.array([idx[f] for f in out.frequency.tolist()], dtype=int)
+        for name, xb, xa in zip(('GSNR', 'OSNR_ASE', 'SNR_NLI'), [x[sel] for x in inv(b)], inv(out)):
+            bad = xa < xb * (1 - 1e-12) - 1e-300
+            if np.any(bad) or not np.all(np.isfinite(xa)):
+                k = int(np.argmax(bad)) if np.any(bad) else 0
+                ctx.violation('quality-improved', f'RamanFiber {el.uid} with the single pump {pump.frequency:.4e} Hz '
+                              f'({pump.propagation_direction}, {pump.power:.3f} W): {name} of channel '
+                              f'{out.frequency[k]:.6e} Hz improved: 1/{name} {xb[k]:.6e} -> {xa[k]:.6e}',
+                              {'before': b.brief(), 'after': out.brief()})
+                return
+
+
 def run_case(case, ctx):
     rng = ctx.rng
     scen = P.build_scenario(rng, case['flavour'], ctx)
@@ -140,6 +165,9 @@ def run_case(case, ctx):
         for e in events:
             check_event(ctx, e)
         check_ops(ctx, ops)
+        for e in events:
+            if e['type'] == 'RamanFiber' and scen['raman'] and not ctx.violations:
+                raman_single_pump_differential(ctx, e)
         fibers = [e for e in events if e['type'] == 'Fiber']
         if fibers and not scen['raman']:
             con_out_differential(ctx, fibers[rng.randrange(len(fibers))])
